@@ -292,6 +292,7 @@ func (s *server) ModifyColumnFamilies(ctx context.Context, req *btapb.ModifyColu
 		}
 	}
 
+	dropped := make(map[string]bool)
 	for _, mod := range req.Modifications {
 		if create := mod.GetCreate(); create != nil {
 			if _, ok := cfs[mod.Id]; ok {
@@ -305,24 +306,7 @@ func (s *server) ModifyColumnFamilies(ctx context.Context, req *btapb.ModifyColu
 				return nil, fmt.Errorf("can't delete unknown family %q", mod.Id)
 			}
 			delete(cfs, mod.Id)
-
-			// Purge all data for this column family
-			var emptied []keyType
-			tbl.rows.Ascend(func(r *btpb.Row) bool {
-				r, changed := scrubRow(r, tbl.cols())
-				if changed {
-					if len(r.Families) == 0 {
-						emptied = append(emptied, r.Key)
-					} else {
-						tbl.rows.ReplaceOrInsert(r)
-					}
-				}
-				return true
-			})
-			// Rows left without cells are removed (after the iteration, see DropRowRange).
-			for _, k := range emptied {
-				tbl.rows.Delete(k)
-			}
+			dropped[mod.Id] = true
 		} else if modify := mod.GetUpdate(); modify != nil {
 			cf, ok := cfs[mod.Id]
 			if !ok {
@@ -334,7 +318,36 @@ func (s *server) ModifyColumnFamilies(ctx context.Context, req *btapb.ModifyColu
 		}
 	}
 
+	// Persist the new definition before touching any row: after a restart in between, the
+	// dropped families are gone and their cells are not served any more, instead of the
+	// families being still there with part of their data missing.
 	s.storage.SetTableMeta(tbl.def)
+
+	if len(dropped) > 0 {
+		// Purge all data of the dropped families (also of one re-created later in the same request).
+		var emptied []keyType
+		tbl.rows.Ascend(func(r *btpb.Row) bool {
+			kept := r.Families[:0]
+			for _, fam := range r.Families {
+				if !dropped[fam.Name] {
+					kept = append(kept, fam)
+				}
+			}
+			if len(kept) != len(r.Families) {
+				r.Families = kept
+				if len(kept) == 0 {
+					emptied = append(emptied, r.Key)
+				} else {
+					tbl.rows.ReplaceOrInsert(r)
+				}
+			}
+			return true
+		})
+		// Rows left without cells are removed (after the iteration, see DropRowRange).
+		for _, k := range emptied {
+			tbl.rows.Delete(k)
+		}
+	}
 	return tbl.def, nil
 }
 
